@@ -427,6 +427,24 @@ def strip_mutation_times(ts):
     return tables.tree_sequence()
 
 
+def extra_flags(ts, rng, p_hist=0.7, p_any=0.15):
+    """Set node flag bits that tskit does not interpret: tsinfer/tsdate's historical-sample
+    bit (1<<20) on non-contemporary samples, and arbitrary high bits on random nodes."""
+    tables = ts.dump_tables()
+    fl = tables.nodes.flags.copy()
+    t = tables.nodes.time
+    n_set = 0
+    for u in range(len(fl)):
+        if (fl[u] & tskit.NODE_IS_SAMPLE) and t[u] > 0 and rng.random() < p_hist:
+            fl[u] |= np.uint32(1 << 20)
+            n_set += 1
+        if rng.random() < p_any:
+            fl[u] |= np.uint32(1 << int(rng.integers(16, 31)))
+            n_set += 1
+    tables.nodes.flags = fl
+    return tables.tree_sequence(), n_set
+
+
 # ------------------------------------------------------------------ transformations
 
 
@@ -702,6 +720,14 @@ def any_input(rng, kinds=None, contemporaneous=False, allow_inferred=True):
     if not allow_inferred:
         kinds = [k for k in kinds if k != "inferred"]
     kind = str(rng.choice(kinds))
+    ts, r = _any_input(rng, kind)
+    if rng.random() < (0.6 if kind in ("historical", "internal_sample") else 0.25):
+        ts, k = extra_flags(ts, rng)
+        r["extra_flag_bits"] = k
+    return ts, r
+
+
+def _any_input(rng, kind):
     if kind == "sim":
         return sim(rng)
     if kind == "handmade":
